@@ -122,6 +122,12 @@ theorem c36_drawPolygon1_no_panic (h w : Int) (es : List (Pt × Pt)) (hh : 0 < h
     rw [(c36_drawLine1_no_panic h w e.1 e.2 hh hw).1]
     simpa using ih
 
+/-- External mode on a mask with more than one pixel per component: `visit` at the raster-first
+pixel of the L-shaped component goes through `follow` (hypotheses of
+`c36_visit_starts_contour_external`: value 1, background to the left, `last_nonzero = 0`). -/
+example : findContours 2 3 [false, true, true, false, true, false] true =
+    .ok [[(0, 1), (1, 1), (0, 2)]] := by decide +kernel
+
 /-- Non-vacuity: a line from far outside the image on both sides. -/
 example : drawLine1 4 6 (-7, -3) (9, 20) = ([(0, 0), (1, 1), (1, 2), (2, 3), (2, 4)], false) := by
   decide
